@@ -71,7 +71,7 @@ def run(tier, seed):
                 res.violation(f"sokuon before {u!r} ({a!r}) does not double the consonant: {a2!r}", {"kind": "sokuon_doubling", "unit": u})
     # ---- strings over the client's class
     cls = HIRA + list(ASCII)
-    inputs = [""]
+    inputs = ["", "っっきゃ", "っっっか", "あっっっ", "っっっきゃっっ", "っきゃっきゃっきゃ", "きゃきゅきょきゃ", "んんんあ", "っっっっっっっっか", "かっっっった"]
     red = ["a", "k", "t", "n", "T", "1", "あ", "か", "っ", "ん", "ゃ", "き"]
     L = 3 if tier == "quick" else 4
     for n in range(1, L + 1):
@@ -92,6 +92,33 @@ def run(tier, seed):
     inputs = list(dict.fromkeys(inputs))
     outs = conv(inputs)
     out_of = dict(zip(inputs, outs))
+    # the result equals the concatenation of the results of its units (longest match), a run of k sokuon doubling k times the consonant that follows
+    ukeys = sorted(unit_spell, key=len, reverse=True)
+    def by_units(s):
+        out, i = "", 0
+        while i < len(s):
+            c = s[i]
+            if c in ASCII:
+                out += c.lower(); i += 1; continue
+            k = 0
+            while i + k < len(s) and s[i + k] == "っ":
+                k += 1
+            j = i + k
+            u = next((x for x in ukeys if x != "っ" and s.startswith(x, j)), None) if j < len(s) else None
+            if u is None:
+                return None if (k or j < len(s)) else out          # a character outside the table, or a sokuon run with nothing after it: not judged here
+            a = unit_spell[u]
+            if k and not (a and a[0] in "tbjfhswrypkgzcvdm"):
+                return None                                         # a sokuon before a vowel / n: the spelling of the lone sokuon is not this clause
+            out += (a[0] * k if k else "") + a
+            i = j + len(u)
+        return out
+    for s, o in zip(inputs, outs):
+        if isinstance(o, str) and len(s) <= 24:
+            want = by_units(s)
+            if want is not None and o != want:
+                res.violation(f"convert({s!r}) = {o!r} is not the concatenation of its units' spellings {want!r} (k sokuon double the next consonant k times)",
+                              {"kind": "units", "input": s, "output": o, "want": want})
     nontriv = 0
     extra_q = []
     for s, o in zip(inputs, outs):
